@@ -960,6 +960,11 @@ type mockGun struct {
 	r        *rand.Rand
 	aggr     core.Aggregator
 	returned *int64 // Report calls that have returned (all guns of the run)
+	// via "hang": the shot number hangAt does not come back until the driver closes release; the gun does not
+	// watch any context (a server that does not answer, a gun with a long timeout of its own)
+	hangAt  int
+	hung    *int64
+	release chan struct{}
 }
 
 func (g *mockGun) Bind(a core.Aggregator, deps core.GunDeps) error {
@@ -970,6 +975,10 @@ func (g *mockGun) Bind(a core.Aggregator, deps core.GunDeps) error {
 func (g *mockGun) Shoot(core.Ammo) {
 	g.i++
 	abs, s := g.cfg.sample(g.r, g.g, g.i)
+	if g.cfg.via == "hang" && g.i == g.hangAt {
+		atomic.AddInt64(g.hung, 1)
+		<-g.release
+	}
 	if g.cfg.via == "staged" {
 		time.Sleep(time.Duration(500+g.r.Intn(2500)) * time.Microsecond) // a slow shot: others end meanwhile
 	} else if g.cfg.via != "engine" || g.cfg.schedEnd() {
@@ -1011,7 +1020,8 @@ func runEngine(cfg aggRun, w *vt.Writer, seed int64) {
 	for _, n := range cfg.per {
 		total += n
 	}
-	var gunSeq, returned int64
+	var gunSeq, returned, hung int64
+	release := make(chan struct{})
 	var mu sync.Mutex
 	if cfg.via != "engine" && cfg.via != "staged" {
 		total = 2000 // the run is stopped by the cancel / the provider failure, not by the end of ammo
@@ -1042,7 +1052,9 @@ func runEngine(cfg aggRun, w *vt.Writer, seed int64) {
 			gunSeq++
 			n := gunSeq
 			mu.Unlock()
-			return &mockGun{cfg: cfg, w: w, r: rand.New(rand.NewSource(seed*1000 + n)), returned: &returned}, nil
+			// via "hang": instance n makes per[n-1] reports, its next shot hangs
+			return &mockGun{cfg: cfg, w: w, r: rand.New(rand.NewSource(seed*1000 + n)), returned: &returned,
+				hangAt: cfg.per[(n-1)%int64(len(cfg.per))] + 1, hung: &hung, release: release}, nil
 		},
 		RPSPerInstance:  false,
 		NewRPSSchedule:  newSched,
@@ -1067,6 +1079,36 @@ func runEngine(cfg aggRun, w *vt.Writer, seed int64) {
 		// from here on the run context IS done: an instance reports at most the shot it has in flight
 		w.Emit(map[string]interface{}{"ev": "Cancelled", "run": cfg.run})
 	}
+	var aggErr error
+	aggSeen := false
+	if cfg.via == "hang" {
+		// Every instance is inside a shot that does not come back (Shutdown!Hangs); everything reported so far has
+		// returned.  Then the run is cancelled from outside (what the SIGINT / SIGTERM arm of cli.go does).  The
+		// aggregator runs on the run context: it has to drain, flush, close and RETURN now - cli.go gives up
+		// waiting for the hung shots after 3 s / 30 s and exits, whatever is still in memory then is lost.
+		// Recorded: AggReturned when the aggregator's Run has returned, Release when the driver lets the shots come
+		// back.  TracePoolAgg demands AggReturned BEFORE Release.  The wait is one-sided: a correct aggregator
+		// returns within milliseconds, the driver is patient for 30 s.
+		dead := time.Now().Add(60 * time.Second)
+		for atomic.LoadInt64(&hung) < int64(cfg.k) && time.Now().Before(dead) {
+			time.Sleep(200 * time.Microsecond)
+		}
+		if atomic.LoadInt64(&hung) < int64(cfg.k) {
+			w.Emit(map[string]interface{}{"ev": "Machinery", "run": cfg.run, "what": "hang run: not every instance reached its hanging shot within 60 s"})
+		}
+		before := atomic.LoadInt64(&returned)
+		w.Emit(map[string]interface{}{"ev": "Cancel", "run": cfg.run, "returned_before": vt.Small(before), "hung": vt.Small(atomic.LoadInt64(&hung))})
+		cancel()
+		w.Emit(map[string]interface{}{"ev": "Cancelled", "run": cfg.run})
+		select {
+		case aggErr = <-rc.done:
+			aggSeen = true
+			w.Emit(map[string]interface{}{"ev": "AggReturned", "run": cfg.run})
+		case <-time.After(30 * time.Second):
+		}
+		w.Emit(map[string]interface{}{"ev": "Release", "run": cfg.run})
+		close(release)
+	}
 	select {
 	case engErr = <-res:
 	case <-time.After(60 * time.Second):
@@ -1086,6 +1128,9 @@ func runEngine(cfg aggRun, w *vt.Writer, seed int64) {
 	// the engine cancelled the aggregator itself (all instances awaited); Engine.Run returning nil
 	// implies the aggregator's Run was awaited
 	w.Emit(map[string]interface{}{"ev": "EngineEnd", "run": cfg.run, "err": fmt.Sprint(engErr), "timeout": timeout})
+	if aggSeen {
+		rc.done <- aggErr
+	}
 	select {
 	case err := <-rc.done:
 		emitRunEnd(w, cfg, err, false)
@@ -1119,6 +1164,7 @@ func aggMain(args []string) {
 	otherRuns := fs.Int("other", 0, "direct runs of the log and discard aggregators")
 	stagedRuns := fs.Int("staged", 0, "engine runs whose staged start-up is unfinished at out-of-ammo / schedule end")
 	faultRuns := fs.Int("fault", 0, "direct runs whose sink fails (write error, partial write, short count, close error)")
+	hangRuns := fs.Int("hang", 0, "engine runs cancelled from outside while every instance is inside a shot that does not come back")
 	par := fs.Int("par", 4, "runs in flight")
 	fs.Parse(args)
 	seed := aggSeed()
@@ -1131,12 +1177,15 @@ func aggMain(args []string) {
 	flushes := []int{1, 1, 2, 5, 20, 100, 1000}
 	var cfgs []aggRun
 	nofault := *runs + *engRuns + *cancelRuns + *stressRuns + *provRuns + *otherRuns + *stagedRuns
-	for n := 0; n < nofault+*faultRuns; n++ {
+	for n := 0; n < nofault+*faultRuns+*hangRuns; n++ {
 		cfg := aggRun{run: n + 1, via: "direct"}
-		faulty := n >= nofault
+		hang := n >= nofault+*faultRuns // appended after everything else: the earlier runs keep their parameters
+		faulty := n >= nofault && !hang
 		staged := n >= *runs+*engRuns+*cancelRuns+*stressRuns+*provRuns+*otherRuns && !faulty
 		other := n >= *runs+*engRuns+*cancelRuns+*stressRuns+*provRuns && !staged && !faulty
-		if staged {
+		if hang {
+			cfg.via = "hang"
+		} else if staged {
 			cfg.via = "staged"
 		} else if other || faulty {
 			cfg.via = "direct"
@@ -1267,6 +1316,15 @@ func aggMain(args []string) {
 				cfg.mode = "normal"
 			}
 		}
+		if cfg.via == "hang" {
+			// the hung shots report when they are released, after the aggregator has returned: a blocking Report must
+			// find room.  Every third run: a flush interval no timer of cli.go would wait for (1 h; the encoder
+			// buffer is written by the final flush only), every third: none at all
+			if cfg.kind == "phout" {
+				cfg.q = 4096
+			}
+			cfg.flushMs = []int{cfg.flushMs, 3600000, 0}[n%3]
+		}
 		if cfg.via == "cancel" || cfg.via == "provfail" {
 			// a blocking Report after the aggregator has returned must find room (default queue: 256 K)
 			if cfg.kind == "phout" {
@@ -1302,12 +1360,17 @@ func aggMain(args []string) {
 	}
 	sem := make(chan struct{}, *par)
 	var wg sync.WaitGroup
+	hangSem := make(chan struct{}, 16) // hang runs mostly wait (in a broken tree: 30 s each): a pool of their own
 	for _, cfg := range cfgs {
 		wg.Add(1)
-		sem <- struct{}{}
+		slots := sem
+		if cfg.via == "hang" {
+			slots = hangSem
+		}
+		slots <- struct{}{}
 		go func(cfg aggRun) {
 			defer wg.Done()
-			defer func() { <-sem }()
+			defer func() { <-slots }()
 			if cfg.via != "direct" {
 				runEngine(cfg, w, seed*100000+int64(cfg.run))
 			} else {
